@@ -3,14 +3,16 @@
   Property theorems only (helper lemmas live in Torf.Lemmas.Lists*).
 
   Model: `Torf.Lists.step` (Torf/Model/Lists.lean), specification: `Torf.Lists.Spec.holds`
-  (Torf/Spec/Lists.lean).  `isUrl` is `utils.is_url` (a parameter); `UrlAssumption isUrl` is the
-  recorded assumption `isUrl u → isUrl (spaceToPlus u)`.
+  (Torf/Spec/Lists.lean).  `isUrl` is `utils.is_url`, an arbitrary parameter: since /repo ae2b587
+  `URL()` validates the given AND the stored (space→plus) string (`Torf.Lists.accepts`), so the
+  former assumption `isUrl u → isUrl (spaceToPlus u)` is no longer needed anywhere.
 
-  The code falsifies the full statement in three ways (findings D16a, D16b, D16c), so the full
-  statements are kept as `def …_full : Prop`, the theorems are proved for histories without
-  index/slice assignment on a URL list and without slice assignment on the tiers
-  (`Op.affected = false`) under `UrlAssumption`, and the witnesses of the findings are proved to
-  falsify the full statements (the same witnesses are replayed on the implementation).
+  The code falsifies the full statement in two ways (findings D16a, D16b), so the full statement
+  is kept as `def …_full : Prop`, the theorems are proved for histories without index/slice
+  assignment on a URL list and without slice assignment on the tiers (`Op.affected = false`), and
+  the witnesses of the findings are proved to falsify the full statement (the same witnesses are
+  replayed on the implementation).  For a list object that the caller holds, a `Trackers.replace`
+  that raises leaves the object half replaced (finding D16d, `C16_held_*`).
 -/
 import Torf.Lemmas.Lists
 import Torf.Lemmas.ListsReject
@@ -22,36 +24,32 @@ open Torf.Lists
     absent; announce-list = tiers iff more than one URL; url-list / httpseeds mirror the seed lists;
     no duplicates; no empty tier; every URL well-formed; the getters do not fail) -/
 def C16_inv_reachable_full : Prop :=
-  ∀ (isUrl : String → Bool), UrlAssumption isUrl → ∀ ops : List Op,
-    Spec.holds isUrl (run isUrl MI.init ops) (readBack isUrl (run isUrl MI.init ops)) = true
-
-/-- the same without the assumption on `is_url`, for histories without index/slice assignment -/
-def C16_inv_reachable_noassumption_full : Prop :=
-  ∀ (isUrl : String → Bool) (ops : List Op), (∀ op ∈ ops, op.affected = false) →
+  ∀ (isUrl : String → Bool) (ops : List Op),
     Spec.holds isUrl (run isUrl MI.init ops) (readBack isUrl (run isUrl MI.init ops)) = true
 
 /-- one step: the inductive invariant `Inv` (the fields are exactly what the write-back callbacks
     produce for duplicate-free, valid, space-free lists without an empty tier) is preserved by
-    every operation other than index/slice assignment, whether it succeeds or raises -/
-theorem C16_inv_step_partial (isUrl : String → Bool) (h : UrlAssumption isUrl) (s : MI) (op : Op)
+    every operation other than index/slice assignment, whether it succeeds or raises — for every
+    `is_url` whatsoever -/
+theorem C16_inv_step_partial (isUrl : String → Bool) (s : MI) (op : Op)
     (hs : Inv isUrl s) (hop : op.affected = false) :
     Inv isUrl (step isUrl s op).1 ∧
     Spec.holds isUrl (step isUrl s op).1 (readBack isUrl (step isUrl s op).1) = true :=
-  ⟨step_inv h hs hop, Inv_holds (step_inv h hs hop)⟩
+  ⟨step_inv hs hop, Inv_holds (step_inv hs hop)⟩
 
 /-- every history (any length, any operations other than index/slice assignment, failed
     operations included) from the empty torrent ends in a state that satisfies the property -/
-theorem C16_inv_reachable_partial (isUrl : String → Bool) (h : UrlAssumption isUrl) (ops : List Op)
+theorem C16_inv_reachable_partial (isUrl : String → Bool) (ops : List Op)
     (hops : ∀ op ∈ ops, op.affected = false) :
     Spec.holds isUrl (run isUrl MI.init ops) (readBack isUrl (run isUrl MI.init ops)) = true :=
-  Inv_holds (run_inv h Inv_init hops)
+  Inv_holds (run_inv Inv_init hops)
 
 /-- … and from every state that satisfies the invariant (e.g. the non-trivial start states of
     the correspondence run) -/
-theorem C16_inv_from_partial (isUrl : String → Bool) (h : UrlAssumption isUrl) (s : MI) (ops : List Op)
+theorem C16_inv_from_partial (isUrl : String → Bool) (s : MI) (ops : List Op)
     (hs : Inv isUrl s) (hops : ∀ op ∈ ops, op.affected = false) :
     Spec.holds isUrl (run isUrl s ops) (readBack isUrl (run isUrl s ops)) = true :=
-  Inv_holds (run_inv h hs hops)
+  Inv_holds (run_inv hs hops)
 
 /-- read-back is total and faithful on invariant states: the getters return exactly the stored
     tiers / seed lists (nothing is dropped, re-ordered or re-coerced) -/
@@ -64,26 +62,36 @@ theorem C16_readback_total (isUrl : String → Bool) (s : MI) (hs : Inv isUrl s)
   simp only [readBack, getTrackers_eq hT ha hl, hw, hh, getSeeds_writeSeeds hW,
     getSeeds_writeSeeds hH]
 
-/-- an operation that tries to store an invalid URL raises the URL error — whatever the state,
-    whatever else it was given (index/slice assignment included) — and, unless it is extend / +=
-    (which store value by value), leaves the metainfo untouched.  With `C16_inv_step_partial`
-    (every stored URL is valid) the invalid URL is never stored. -/
+/-- an operation that tries to store a URL that `URL()` does not accept — invalid as given OR
+    invalid after its spaces were replaced by '+' (`accepts`) — raises the URL error, whatever the
+    state, whatever else it was given (index/slice assignment included), and, unless it is
+    extend / += (which store value by value), leaves the metainfo untouched.  With
+    `C16_inv_step_partial` (every stored URL is valid) the invalid URL is never stored. -/
 theorem C16_reject (isUrl : String → Bool) (s : MI) (op : Op) (u : String)
-    (hu : u ∈ op.urls) (hinv : isUrl u = false)
+    (hu : u ∈ op.urls) (hinv : accepts isUrl u = false)
     (hti : ∀ T, getTrackers isUrl s = .ok T → op.tierInRange T = true) :
     (step isUrl s op).2 = .error .url ∧ (op.atomic = true → (step isUrl s op).1 = s) :=
   step_reject hu hinv hti
+
+/-- `replace` on a URL list (webseeds, httpseeds, a tier) can only raise while it coerces its
+    argument for the first time, i.e. BEFORE the list is cleared: the second coercion (by `insert`,
+    callback disabled) of an accepted item cannot fail (this was the second half of D16c/D14g) -/
+theorem C16_url_replace_raises_before_clear (isUrl : String → Bool) (known us : List String) (e : Err)
+    (hr : urlsReplace isUrl known us = .error e) : coerceAll isUrl us = .error e :=
+  urlsReplace_error_before_clear hr
+
+/-- in particular for a URL that `is_url` itself rejects -/
+theorem C16_reject_invalid (isUrl : String → Bool) (s : MI) (op : Op) (u : String)
+    (hu : u ∈ op.urls) (hinv : isUrl u = false)
+    (hti : ∀ T, getTrackers isUrl s = .ok T → op.tierInRange T = true) :
+    (step isUrl s op).2 = .error .url ∧ (op.atomic = true → (step isUrl s op).1 = s) :=
+  step_reject hu (by simp [accepts, hinv]) hti
 
 /-! ### non-vacuity -/
 
 /-- `is_url` restricted to the strings of the witnesses (agrees with the real function there) -/
 def wIsUrl (s : String) : Bool :=
   s == "http://a/1" || s == "http://b/2" || s == "http://a b" || s == "http://a+b"
-
-theorem wIsUrl_assumption : UrlAssumption wIsUrl := by
-  intro u hu
-  simp only [wIsUrl, Bool.or_eq_true, beq_iff_eq] at hu
-  rcases hu with ((rfl | rfl) | rfl) | rfl <;> decide
 
 /-- the hypotheses of the `_partial` theorems are satisfiable by a non-trivial history that
     exercises de-duplication by coercion, a failing operation, tier removal and `+=` -/
@@ -113,7 +121,7 @@ def wD16a : List Op :=
 
 theorem C16_inv_reachable_counterexample : ¬ C16_inv_reachable_full := by
   intro h
-  have := h wIsUrl wIsUrl_assumption wD16a
+  have := h wIsUrl wD16a
   revert this
   decide
 
@@ -138,19 +146,37 @@ theorem C16_tiers_setslice_counterexample :
     ¬ C16_inv_reachable_full := by
   refine ⟨by decide, by decide, ?_⟩
   intro h
-  have := h wIsUrl wIsUrl_assumption wD16b
+  have := h wIsUrl wD16b
   revert this
   decide
 
-/-- D16c: without the assumption on `is_url` the statement fails even without index/slice
-    assignment: `webseeds.append(' http://l/')` (accepted by `is_url`, which strips leading white
-    space) stores '+http://l/', which is not a URL -/
-def wIsUrlLead (s : String) : Bool := s == " http://l/"
+/-! ### regression: the former finding D16c (repaired in /repo ae2b587) -/
 
-theorem C16_assumption_needed_counterexample : ¬ C16_inv_reachable_noassumption_full := by
-  intro h
-  have := h wIsUrlLead [.webseeds (.edit (.append " http://l/"))] (by decide)
-  revert this
+/-- an `is_url` that accepts a string with leading white space (as urllib does) while its
+    space→plus image is not a URL -/
+def wIsUrlLead (s : String) : Bool := s == " http://l/" || s == "http://a/1"
+
+/-- `webseeds.append(' http://l/')` (formerly stored as the invalid '+http://l/'): URL error,
+    nothing stored; the same on a tier, by assignment and by `replace` (which no longer clears the
+    list before it fails); the property holds after the whole history -/
+def wLead : List Op :=
+  [.webseeds (.edit (.append " http://l/")),
+   .webseeds (.set (.list ["http://a/1"])),
+   .webseeds (.edit (.replace ["http://a/1", " http://l/"])),
+   .webseeds (.edit (.extend ["http://a/1", " http://l/"])),
+   .trackers (.set (.str "http://a/1")),
+   .trackers (.tier 0 (.append " http://l/")),
+   .trackers (.append (.str " http://l/"))]
+
+example : step wIsUrlLead MI.init (.webseeds (.edit (.append " http://l/"))) = (MI.init, .error .url) := by
+  decide
+
+example : (∀ op ∈ wLead, op.affected = false) ∧
+    run wIsUrlLead MI.init wLead = { announce := some "http://a/1", urlList := some ["http://a/1"] } ∧
+    Spec.holds wIsUrlLead (run wIsUrlLead MI.init wLead) (readBack wIsUrlLead (run wIsUrlLead MI.init wLead)) = true ∧
+    (wLead.map fun op => (step wIsUrlLead (run wIsUrlLead MI.init [.webseeds (.set (.list ["http://a/1"])),
+        .trackers (.set (.str "http://a/1"))]) op).2) =
+      [.error .url, .ok, .error .url, .error .url, .ok, .error .url, .error .url] := by
   decide
 
 /-! ### a list object that the caller holds (finding D16d) -/
@@ -158,60 +184,117 @@ theorem C16_assumption_needed_counterexample : ¬ C16_inv_reachable_noassumption
 /-- the property for a held `Trackers` object as stated: after every history of operations on the
     object obtained from the empty torrent the metainfo mirrors the object -/
 def C16_held_sync_full : Prop :=
-  ∀ (isUrl : String → Bool), UrlAssumption isUrl → ∀ ops : List HOp,
+  ∀ (isUrl : String → Bool) (ops : List HOp),
     Mirrors (heldRun isUrl MI.init ⟨[], true⟩ ops).1 (heldRun isUrl MI.init ⟨[], true⟩ ops).2.tiers
 
-/-- one step on a held object whose callback is set: if the callback is still set afterwards, the
-    metainfo mirrors the object again — whatever the operation, successful or raising, from any
-    state in which it mirrored the object before -/
-theorem C16_held_sync_step_partial (isUrl : String → Bool) (s : MI) (h : HeldTr) (op : HOp)
-    (hcb : h.cb = true) (hm : Mirrors s h.tiers) :
-    (heldStep isUrl s h op).2.1.cb = true →
-      Mirrors (heldStep isUrl s h op).1 (heldStep isUrl s h op).2.1.tiers := by
+/-- no operation — successful or raising — switches the change callback of a held `Trackers`
+    object off (or on): `_callback_disabled()` restores it in a `finally` clause (/repo 37d74d0) -/
+theorem C16_held_callback_kept (isUrl : String → Bool) (s : MI) (h : HeldTr) (op : HOp) :
+    (heldStep isUrl s h op).2.1.cb = h.cb := by
   cases op with
-  | replace vs =>
-    simp only [heldStep, heldReplace]
-    split
-    · intro hc; simp at hc
-    · intro _; simp [hcb, Mirrors, writeTrackers, wOf]
-  | append v =>
-    simp only [heldStep, heldAppend]
-    split
-    · intro _; exact hm
-    · intro _; simp [hcb, Mirrors, writeTrackers, wOf]
-  | clear =>
-    intro _; simp [heldStep, heldClear, hcb, Mirrors, writeTrackers, wOf]
+  | replace vs => simp only [heldStep, heldReplace]; split <;> rfl
+  | append v => simp only [heldStep, heldAppend]; split <;> rfl
+  | clear => rfl
 
-/-- the callback is lost only by a `replace` that raises -/
-theorem C16_held_callback_lost_only_by_failed_replace (isUrl : String → Bool) (s : MI) (h : HeldTr)
-    (op : HOp) (hcb : h.cb = true) (hlost : (heldStep isUrl s h op).2.1.cb = false) :
-    ∃ vs e, op = .replace vs ∧ (heldStep isUrl s h op).2.2 = .error e := by
+/-- an operation on a held object that raises writes nothing; unless it is `replace`, it does not
+    change the object either -/
+theorem C16_held_error_writes_nothing (isUrl : String → Bool) (s : MI) (h : HeldTr) (op : HOp)
+    (e : Err) (herr : (heldStep isUrl s h op).2.2 = .error e) :
+    (heldStep isUrl s h op).1 = s ∧
+      ((∀ vs, op ≠ .replace vs) → (heldStep isUrl s h op).2.1 = h) := by
   cases op with
   | replace vs =>
-    refine ⟨vs, ?_⟩
-    simp only [heldStep, heldReplace] at hlost ⊢
-    split at hlost
-    · rename_i T' e heq
-      refine ⟨e, ?_⟩
-      simp [heq]
-    · simp [hcb] at hlost
+    simp only [heldStep, heldReplace] at herr ⊢
+    split at herr
+    · simp
+    · cases herr
   | append v =>
-    simp only [heldStep, heldAppend] at hlost
-    split at hlost <;> simp [hcb] at hlost
-  | clear => simp [heldStep, heldClear, hcb] at hlost
+    simp only [heldStep, heldAppend] at herr ⊢
+    split at herr
+    · simp
+    · cases herr
+  | clear => simp [heldStep, heldClear] at herr
+
+/-- every operation on a held object (callback set) that SUCCEEDS leaves the metainfo mirroring
+    the object — whatever the state was before, in particular after a `replace` that raised: the
+    deviation of D16d lasts until the next successful edit through the object -/
+theorem C16_held_resync_on_success (isUrl : String → Bool) (s : MI) (h : HeldTr) (op : HOp)
+    (hcb : h.cb = true) (hok : (heldStep isUrl s h op).2.2 = .ok) :
+    Mirrors (heldStep isUrl s h op).1 (heldStep isUrl s h op).2.1.tiers := by
+  cases op with
+  | replace vs =>
+    simp only [heldStep, heldReplace] at hok ⊢
+    split at hok
+    · cases hok
+    · simp [hcb, Mirrors, writeTrackers, wOf]
+  | append v =>
+    simp only [heldStep, heldAppend] at hok ⊢
+    split at hok
+    · cases hok
+    · simp [hcb, Mirrors, writeTrackers, wOf]
+  | clear => simp [heldStep, heldClear, hcb, Mirrors, writeTrackers, wOf]
+
+/-- one step on a held object whose callback is set and which the metainfo mirrors: after any
+    operation other than a `replace` that raises — successful or raising — the metainfo mirrors
+    the object again -/
+theorem C16_held_sync_step_partial (isUrl : String → Bool) (s : MI) (h : HeldTr) (op : HOp)
+    (hcb : h.cb = true) (hm : Mirrors s h.tiers) (hop : op.failingReplace isUrl = false) :
+    Mirrors (heldStep isUrl s h op).1 (heldStep isUrl s h op).2.1.tiers := by
+  cases hout : (heldStep isUrl s h op).2.2 with
+  | ok => exact C16_held_resync_on_success isUrl s h op hcb hout
+  | error e =>
+    have hw := C16_held_error_writes_nothing isUrl s h op e hout
+    cases op with
+    | replace vs =>
+      exfalso
+      simp only [heldStep, heldReplace] at hout
+      simp only [HOp.failingReplace, ne_eq, decide_eq_false_iff_not, Decidable.not_not] at hop
+      split at hout
+      · rename_i T' e' heq; rw [heq] at hop; cases hop
+      · cases hout
+    | append v => rw [hw.1, hw.2 (fun vs => by simp)]; exact hm
+    | clear => rw [hw.1, hw.2 (fun vs => by simp)]; exact hm
+
+/-- every history of any length of `replace` / `append` / `clear` on a `Trackers` object obtained
+    from a state it mirrors, without a `replace` that raises, ends with the metainfo mirroring the
+    object (failing `append`s included) -/
+theorem C16_held_sync_reachable_partial (isUrl : String → Bool) (s : MI) (h : HeldTr) (ops : List HOp)
+    (hcb : h.cb = true) (hm : Mirrors s h.tiers) (hops : ∀ op ∈ ops, op.failingReplace isUrl = false) :
+    Mirrors (heldRun isUrl s h ops).1 (heldRun isUrl s h ops).2.tiers := by
+  induction ops generalizing s h with
+  | nil => exact hm
+  | cons op ops ih =>
+    simp only [heldRun]
+    have h1 := C16_held_sync_step_partial isUrl s h op hcb hm (hops op (by simp))
+    have h2 := C16_held_callback_kept isUrl s h op
+    rcases hst : heldStep isUrl s h op with ⟨s', h', out⟩
+    rw [hst] at h1 h2
+    exact ih s' h' (h2.trans hcb) h1 (fun o ho => hops o (by simp [ho]))
 
 /-- D16d: `t.trackers = [[a]]; tr = t.trackers; tr.replace([[b], ['foo']])` raises the URL error
-    with the object half replaced and its callback gone; `tr.append('http://a b')` is then not written -/
+    with the object half replaced (`[[b]]`) while the metainfo keeps `a` -/
 def wD16d : List HOp :=
-  [.append (.list ["http://a/1"]), .replace [.list ["http://b/2"], .list ["foo"]], .append (.str "http://a b")]
+  [.append (.list ["http://a/1"]), .replace [.list ["http://b/2"], .list ["foo"]]]
 
 theorem C16_held_replace_counterexample : ¬ C16_held_sync_full := by
   intro h
-  have := h wIsUrl wIsUrl_assumption wD16d
+  have := h wIsUrl wD16d
   revert this
   decide
 
 example : heldRun wIsUrl MI.init ⟨[], true⟩ wD16d =
-    ({ announce := some "http://a/1" }, ⟨[["http://b/2"], ["http://a+b"]], false⟩) := by decide
+    ({ announce := some "http://a/1" }, ⟨[["http://b/2"]], true⟩) := by decide
+
+/-- … and the next successful edit writes the half-replaced object (`a` is gone for good) -/
+example : heldRun wIsUrl MI.init ⟨[], true⟩ (wD16d ++ [.append (.str "http://a b")]) =
+    ({ announce := some "http://b/2", announceList := some [["http://b/2"], ["http://a+b"]] },
+     ⟨[["http://b/2"], ["http://a+b"]], true⟩) := by decide
+
+/-- non-vacuity of `C16_held_sync_reachable_partial`: a history with a failing `append` and a
+    successful `replace` -/
+example : (∀ op ∈ ([.append (.list ["http://a/1"]), .append (.list ["foo"]),
+      .replace [.list ["http://b/2"], .str "http://a b"], .append (.str "http://a+b")] : List HOp),
+      op.failingReplace wIsUrl = false) ∧
+    (wD16d.map (HOp.failingReplace wIsUrl)) = [false, true] := by decide
 
 end Torf.C16
